@@ -110,10 +110,16 @@ TEXT = {
                 "up deferred, chosen as the fix, or is a skipped entry of the affected reference (lookForFix_partition); and, by the "
                 "loop theorem relLoop_sound_gen (induction over the whole loop incl. re-queuing), in an accepted range every entry for the "
                 "reference that verifyEntry did not accept is marked skipped, deferred entries of other references are still processed. "
+                "Whole-loop theorem (induction over the loop with a queue invariant; relLoop_recovery_gen, C07_relative_tolerated, "
+                "C07_full_tolerated): if verification of a branch accepts, every entry of the branch was accepted by verifyEntry under a "
+                "state in force, or is revoked and followed by an unrevoked entry of the branch that restores the tree of the last unrevoked "
+                "entry before it with every entry in between revoked (implies the executable predicate 'tolerated'), or - only with defect "
+                "F3 - is the unverified fix of such an entry. "
                 "The declarative statement C07_sound_statement (tree-same fix, all intermediates skipped) is evaluated on every range "
                 "the REAL verifier accepts; the model must reproduce every verdict of the real code on the generated recovery patterns.",
-        "note": TB + "The declarative 'tolerated' predicate (existence of the fix with the right tree) is not yet derived from the loop theorem. "
-                "F3 (fix entry never verified) is an open finding that also violates C07.",
+        "note": TB + "The whole-loop theorem assumes no propagation entry for the verified branch in the range and entries that name commits "
+                "(decidable; met by the kernel-checked witness wRec); 'accepted by verifyEntry' is linked to the declarative authorization "
+                "only for the Git rule (C01). F3 (fix entry never verified) is an open finding that also violates C07.",
         "technique": "Lean 4 proof of the fix-search invariants + differential correspondence on recovery patterns",
     },
     "C02": {
